@@ -435,7 +435,10 @@ class ValueTransformation(DetectionItemTransformation):
                 reloaded = SigmaDetectionItem.from_mapping(key, plain_value)
             else:
                 reloaded = SigmaDetectionItem.from_value(plain)
-            return bool(reloaded.value == detection_item.value)
+            return bool(
+                reloaded.value == detection_item.value
+                and [type(v) for v in reloaded.value] == [type(v) for v in detection_item.value]
+            )
         except Exception:
             return False
 
